@@ -181,18 +181,24 @@ func VerifH_C07_triple() {
 }
 
 // H07b: keys that compare equal must get the same layer (the layer decides
-// where the tree looks for the key); the layer hash is uninterpreted, so this
-// is "equal keys hand identical arguments to the hash".
+// where the tree looks for the key).  The real Key.Layer runs with the hash
+// function it delegates to (the package variable defaultLayer) replaced by a
+// recorder, so "layer is a function of the Order-equivalence class" becomes
+// "equal keys hand identical arguments to the hash".
 func VerifH_C07_layer() {
 	a := vSymKey("a", 2, 4)
 	b := vSymKey("b", 2, 4)
 	bf := uint(symParam("bf", 2))
+	var rec []interface{}
+	defaultLayer = func(i interface{}, branchFactor uint) (uint8, error) {
+		rec = append(rec, i)
+		return 0, nil
+	}
 	if a.k.Order(b.k) == 0 {
-		la := a.k.Layer(bf)
-		lb := b.k.Layer(bf)
-		symObserve("la", la)
-		symObserve("lb", lb)
-		symAssert(la == lb, "equal-keys-same-layer")
+		a.k.Layer(bf)
+		b.k.Layer(bf)
+		symAssert(len(rec) == 2, "layer-delegates-once")
+		symAssert(symDeepEq(rec[0], rec[1]), "equal-keys-same-layer")
 		symReach("equal")
 	}
 	symReach("end")
